@@ -100,6 +100,13 @@ func setdoc(from, name, url string) sim.TxSpec {
 	return sim.TxSpec{Type: "setdoc", From: from, Name: name, URL: url, Tag: fmt.Sprintf("setdoc %s %q", from, name)}
 }
 
+// chk: the template reaches the mempool check only (CheckTx at its position in the block), it is never delivered.
+func chk(s sim.TxSpec) sim.TxSpec {
+	s.CheckOnly = true
+	s.Tag = "CheckTx-only " + s.Tag
+	return s
+}
+
 func clean(s string) string {
 	out := make([]byte, 0, len(s))
 	for i := 0; i < len(s); i++ {
